@@ -198,12 +198,18 @@ XalanOutputStream::transcode(
                 }
             }
 
-            if (theSourceBytesEaten == 0 && theRemainingBufferLength != 0)
+            // No character needs more than a few bytes in any encoding.
+            const size_type     theLargestCharacterSize = 16;
+
+            if (theSourceBytesEaten == 0 &&
+                theRemainingBufferLength != 0 &&
+                theTargetSize >= theLargestCharacterSize)
             {
-                // The transcoder cannot make any progress, for example,
-                // because the data ends with the first half of a surrogate
-                // pair.  A larger destination will not help, so report
-                // the failure instead of growing the buffer forever.
+                // The transcoder cannot make any progress, although there
+                // is room for the next character, for example, because
+                // the data ends with the first half of a surrogate pair.
+                // A larger destination will not help, so report the
+                // failure instead of growing the buffer forever.
                 XalanDOMString  theExceptionBuffer(theDestination.getMemoryManager());
 
                 throw TranscodingException(
